@@ -66,6 +66,9 @@ type Scenario struct {
 	Calls    []Call   `json:"calls"`
 	Workers  [][]Step `json:"workers"`
 	MaxProcs int      `json:"maxprocs"`
+	// DefLayout, when not 0, is geojson.DefaultLayout during the run (package
+	// level configuration that library code may only read).
+	DefLayout int `json:"def_layout,omitempty"`
 }
 
 type prop struct{}
@@ -107,6 +110,9 @@ func (prop) Decode(raw []byte) (any, error) {
 	}
 	if s.MaxProcs < 1 || s.MaxProcs > 64 {
 		return nil, fmt.Errorf("bad maxprocs")
+	}
+	if s.DefLayout < 0 || s.DefLayout > 4 {
+		return nil, fmt.Errorf("bad default layout")
 	}
 	if len(s.Workers) > 32 {
 		return nil, fmt.Errorf("too many workers")
@@ -599,6 +605,12 @@ func (prop) Execute(scAny any, phase string, log *core.Log) core.Result {
 	// configuration (only read by library code) and are set before any
 	// goroutine starts.
 	defer wkbadapt.SetLimits(refwkb.Limits{0, 512, 512, 512})()
+	if s.DefLayout != 0 {
+		old := geojson.DefaultLayout
+		geojson.DefaultLayout = geom.Layout(s.DefLayout)
+		defer func() { geojson.DefaultLayout = old }()
+		res.Count("probe:geojson-default-layout-set", 1)
+	}
 	if s.MaxProcs == 1 {
 		res.Count("probe:maxprocs=1", 1)
 	}
@@ -839,6 +851,13 @@ func (g *gen) pointSet(l int) []mgeom.Coord {
 	default:
 		n = g.r.Range(3, 40)
 	}
+	if g.r.Chance(0.01) {
+		// block-sized inputs (chunked, pooled or parallel fast paths engage)
+		n = []int{128, 256, 512, 1024}[g.r.Intn(4)] + g.r.Range(-1, 1)
+		if mode == 1 {
+			mode = 5
+		}
+	}
 	out := make([]mgeom.Coord, 0, n)
 	switch {
 	case mode == 1: // more than 50 points with very few distinct positions
@@ -1039,6 +1058,9 @@ func (prop) Generate(r *prng.Rand, phase string) any {
 		// happens-before edges (sync.Pool inside encoding/json and fmt under
 		// -race) can order them; races then go unreported and unreproduced.
 		s.MaxProcs = 8
+	}
+	if r.Chance(0.2) {
+		s.DefLayout = 1 + r.Intn(4)
 	}
 	g := &gen{r: r, s: s}
 	g.cfg = mgeom.SwarmCfg(r, []int{1, 2, 3, 4})
